@@ -1,6 +1,7 @@
 """C08 -- Bezier curves and chains are the exact curves, joined smoothly."""
 import mathprop, geomoracles
 RUN_TARGETS = ['Run/GeomOps.vo']
+WITNESS = ['Props/Witness_chains.vo']     # non-vacuity examples for the conditional theorems (built with the property)
 TRUSTED = ['hand model coq/Geom/Dim2.v (curves, chain builders as a state machine, both star construction paths) tied by the differential run',
            'theorems over R']
 ASSUMPTIONS = ['stdlib real-number axioms', 'the end point is reached up to the rounding of segments*(1/segments)']
